@@ -269,4 +269,36 @@ def endBlock (P : Params) (h : Nat) (s : State) : State :=
   let released := s.props.foldr (fun kv acc => (updateProp P h kv.2).2 + acc) 0
   { s with props := mapKV (fun _ p => (updateProp P h p).1) s.props, used := s.used - released }
 
+/-! ## modelled for the correspondence, not covered by the theorems
+
+`resetUsed`: what `resetCRCCommitteeUsedAmount` (run by a successful committee change) makes of the used amount.
+`closePhase`: `dealProposal` for CloseProposal proposals that pass the public vote in `updateProposals`. -/
+
+/-- budgets still to be paid: for a live proposal everything not withdrawn, for a terminated / finished one what is
+    withdrawable and not withdrawn, nothing for a cancelled / aborted one. -/
+def unpaid (p : Prop') : Int :=
+  match p.status with
+  | .crCanceled | .voterCanceled | .aborted => 0
+  | .terminated | .finished =>
+    p.budgets.foldr (fun b acc => (if b.w ∧ ¬ b.wn then b.amount else 0) + acc) 0
+  | _ => p.budgets.foldr (fun b acc => (if b.wn then 0 else b.amount) + acc) 0
+
+def resetUsed (s : State) : Int := s.props.foldr (fun kv acc => unpaid kv.2 + acc) 0
+
+/-- close proposals (no budgets) that have just been accepted by the voters are Finished.  `dealProposal` looks at
+    the target's status while `updateProposals` is still iterating — the termination it queues runs only at the
+    commit — so every close proposal of the pass that finds its target neither Terminated nor Finished releases the
+    target's not-yet-withdrawable budgets (two close proposals of one target in one pass release twice); the target
+    ends Terminated. -/
+def closePhase (s : State) (closing : List (Nat × Nat)) : State :=
+  let unusedOfTarget (t : Nat) : Int := match get t s.props with
+    | none => 0
+    | some p => if p.status = .terminated ∨ p.status = .finished then 0
+                else (p.budgets.filter (fun b => ¬ b.w)).foldr (fun b acc => b.amount + acc) 0
+  let released := closing.foldr (fun ct acc => unusedOfTarget ct.2 + acc) 0
+  let s1 := closing.foldl (fun st ct => { st with props := upd ct.1 (fun p => { p with status := .finished }) st.props }) s
+  let s2 := closing.foldl (fun st ct => { st with props := upd ct.2 (fun p =>
+      if p.status = .terminated ∨ p.status = .finished then p else { p with status := .terminated }) st.props }) s1
+  { s2 with used := s2.used - released }
+
 end ElaVerif.Proposal
